@@ -55,7 +55,7 @@ let parse_enum_op tok =
 
 let model_of (f : string list) : string =
   match f with
-  | ["D"; k; s; n; sc; off; raw; _start] ->
+  | "D" :: k :: s :: n :: sc :: off :: raw :: _start_and_variant ->
     show_value (decode_std (kind_of k) (s = "1") (cz n) (f64_of_bits (cz sc)) (f64_of_bits (cz off)) (cz raw))
   | "N" :: _n :: cnt :: rest ->
     let cnt = int_of_string cnt in
